@@ -289,7 +289,7 @@ func (g *amfGen) key() []byte {
 	case 0:
 		return r.Bytes(1 + r.Intn(4)) // arbitrary bytes, incl. 0x00 and 0x09
 	case 1:
-		return []byte(strings.Repeat("k", r.Pick(255, 256, 300)))
+		return []byte(strings.Repeat("k", r.Pick(255, 256, 300, 126, 127, 128, 129, 63, 64, 65, 1+r.Intn(520))))
 	case 2:
 		if g.bigOK {
 			return h.LCGBytes(65535, uint32(r.Intn(1000)))
